@@ -5,6 +5,7 @@ wrapper handlers: which object is called, how often, with which arguments, in wh
 forwarded -- i.e. the rxsci side of the round trip.  The library laws themselves (stream = codec of the concatenation, independent of
 chunking; eof iff end marker) are exercised on the real libraries by the bounded tier only."""
 import ast
+import z3
 from .base import *
 from ..fnharness import FnCase, run_cases
 from ..engine import Path
@@ -471,6 +472,247 @@ class ClosingQuote(FnCase):
         return first_new_failure(bio.check_c18({}))
 
 
+# flat(sep, parts): the text of `parts` with the separator written BEFORE every part -- the spec fold
+#   flat(sep, []) = '',   flat(sep, s ++ [x]) = flat(sep, s) + sep + x
+# and the trusted model of str.join in terms of it:  sep + sep.join(s) == flat(sep, s) for a non-empty s.  The solver gets flat / joinsep
+# as uninterpreted functions plus the instances of these equations at the terms an obligation mentions (flat_instances: syntactic
+# peeling of  X ++ [x],  [x]  and  parts[0:e]), so a proof holds for every function satisfying the equations; a counter-model may
+# interpret them freely elsewhere, hence refutations of this contract count only when they replay natively (validate_refutations).
+from ..strmodels import StrSeq, joinsep
+flat = z3.Function('flat', StringSort(), StrSeq, StringSort())
+
+
+def flat_instances(sep, formulas, PS):
+    """defining equations of flat / joinsep at the sequence terms that occur under flat(...) or joinsep(...) in `formulas`"""
+    from z3 import Z3_OP_SEQ_CONCAT, Z3_OP_SEQ_UNIT, Z3_OP_SEQ_EXTRACT, Z3_OP_SEQ_EMPTY, Empty, Unit, Concat, is_app_of
+    seen = {}; out = []; work = []
+    def visit(t):
+        if t.get_id() in seen: return
+        seen[t.get_id()] = t
+        if z3.is_app(t):
+            if t.decl().eq(flat) or t.decl().eq(joinsep):
+                work.append((t.decl().eq(joinsep), t.arg(1)))
+            for c in t.children(): visit(c)
+        elif z3.is_quantifier(t):
+            visit(t.body())
+    for f in formulas: visit(f)
+    done = set()
+    out.append(flat(sep, Empty(StrSeq)) == StringVal(''))
+    while work:
+        isjoin, X = work.pop()
+        key = (isjoin, X.get_id())
+        if key in done: continue
+        done.add(key)
+        if isjoin:
+            out.append(Implies(Length(X) >= 1, Concat(sep, joinsep(sep, X)) == flat(sep, X)))
+            work.append((False, X)); continue
+        if is_app_of(X, Z3_OP_SEQ_CONCAT) and is_app_of(X.children()[-1], Z3_OP_SEQ_UNIT):
+            ch = X.children(); pre = ch[0] if len(ch) == 2 else Concat(*ch[:-1]); x = ch[-1].arg(0)
+            out.append(flat(sep, X) == Concat(flat(sep, pre), sep, x)); work.append((False, pre))
+        elif is_app_of(X, Z3_OP_SEQ_UNIT):
+            out.append(flat(sep, X) == Concat(sep, X.arg(0)))
+        elif is_app_of(X, Z3_OP_SEQ_EXTRACT) and X.arg(0).eq(PS):
+            e = X.arg(2)
+            out.append(Implies(And(e >= 1, e <= Length(PS)),
+                               And(X == Concat(SubSeq(PS, 0, e - 1), Unit(PS[e - 1])), flat(sep, X) == Concat(flat(sep, SubSeq(PS, 0, e - 1)), sep, PS[e - 1]))))
+            out.append(Implies(e <= 0, X == Empty(StrSeq)))
+            out.append(Implies(e == Length(PS), X == PS))
+    return out
+
+
+class MergeEscapeParts(FnCase):
+    """csv.merge_escape_parts(parts, separator, escapechar): `parts` is a line split on the separator; the parts of a quoted field that
+    contained separators are joined again.  From the property (strings are read back byte for byte, separators included, fields in
+    order): the merged parts, written one after the other with the separator, are exactly the text of the given parts -- nothing lost,
+    duplicated, reordered or joined with anything but the separator -- whenever every opened quote was closed; on a line whose last
+    quote is never closed the result is the text of the parts before that quote.  The argument list is not modified.
+    Loop invariant (for every number of parts): flat(merged) ++ flat(open group) == flat(parts[:j]); an open group is never empty.
+    The closing-quote test is used through the contract of _ends_with_closing_quote (ClosingQuote above), not its body."""
+    name = 'csv.merge_escape_parts'
+    QUAL = 'rxsci.container.csv.merge_escape_parts'
+    PS = Const('csv_parts', StrSeq); SEP = String('separator'); ES = String('escapechar')
+    validate_refutations = True
+
+    def __init__(self):
+        lc = InvLoop(self.inv, modifies=('locals', 'heap'), name='merge')
+        lc.modes = ['closed', 'open']; lc.mode_setup = self.mode_setup
+        self.lc = lc
+        self.loop_contracts = {(self.QUAL, 0): lc}
+        self.callee_contracts = {'rxsci.container.csv._ends_with_closing_quote': self.closing_quote_contract}
+
+    # ---- roles of the locals, from the AST: the list that is returned, and the local that is reset to None inside the loop
+    def roles(self):
+        fn = self.fn_node
+        merged = agg = None
+        for n in ast.walk(fn):
+            if isinstance(n, ast.Return) and isinstance(n.value, ast.Name) and merged is None:
+                merged = n.value.id
+            if isinstance(n, ast.For):
+                for m in ast.walk(n):
+                    if isinstance(m, ast.Assign) and isinstance(m.value, ast.Constant) and m.value.value is None and isinstance(m.targets[0], ast.Name):
+                        agg = m.targets[0].id
+        if merged is None or agg is None:
+            raise Unsupported('merge_escape_parts: cannot identify the result list / the open group')
+        return merged, agg
+
+    def cids(self, L):
+        if 'cids' not in self.lc.extra:
+            merged, agg = self.roles()
+            self.lc.extra['cids'] = (L.scope_lookup(merged), L.scope_lookup(agg))
+            self.lc.list_kinds = {merged: 'str', agg: 'str'}
+        return self.lc.extra['cids']
+
+    def mode_setup(self, L, q, mode, tag):
+        from ..engine import fresh
+        _m, a = self.cids(L)
+        q.cells[a] = None if mode == 'closed' else self.eng.new_obj(q, 'slist', ('slist', fresh(f'{tag}_group', StrSeq), 'str'))
+
+    def seq_of(self, q, v):
+        from z3 import Unit, Concat, Empty
+        c = q.heap[v.oid]
+        if c[0] == 'slist': return c[1]
+        if c[0] == 'list':
+            ts = [Unit(self.eng.to_str(q, x)) for x in c[1]]
+            return Empty(StrSeq) if not ts else (ts[0] if len(ts) == 1 else Concat(*ts))
+        raise Unsupported(f'merge_escape_parts: list representation {c[0]}')
+
+    def state(self, q, m_cid, a_cid):
+        mv = q.cells[m_cid]; av = q.cells[a_cid]
+        if not isinstance(mv, Ref):
+            raise Unsupported('merge_escape_parts: the result is not a list')
+        M = self.seq_of(q, mv)
+        if av is None: return M, None
+        if isinstance(av, Ref): return M, self.seq_of(q, av)
+        raise Unsupported(f'merge_escape_parts: open group is {av!r}')
+
+    def inv(self, L, q, j):
+        m_cid, a_cid = self.cids(L)
+        if m_cid not in q.cells or a_cid not in q.cells:
+            raise Unsupported('merge_escape_parts: locals not bound at the loop head')
+        if isinstance(q.cells[m_cid], Ref) and q.heap[q.cells[m_cid].oid][0] == 'list' and not q.heap[q.cells[m_cid].oid][1]:
+            pass
+        M, A = self.state(q, m_cid, a_cid)
+        PS, SEP = self.PS, self.SEP
+        text = flat(SEP, M) if A is None else z3.Concat(flat(SEP, M), flat(SEP, A))
+        goals = [('argument_not_modified', q.heap[self.parts.oid][1] == PS),
+                 ('text_so_far', text == flat(SEP, SubSeq(PS, 0, j)))]
+        if A is not None:
+            goals.append(('open_group_not_empty', Length(A) >= 1))
+        out = []
+        for nm, g in goals:
+            out.append((nm, g, {'prove': (lambda L_, q_, jn, g=g: (g, {'defs': flat_instances(SEP, [g] + list(q_.pc), PS)}))}))
+        return out
+
+    def closing_quote_contract(self, eng, p, f, args, kws):
+        """callee contract of _ends_with_closing_quote (discharged by ClosingQuote): requires a one-character escapechar; pure; returns
+        True iff the text ends with a quote preceded by an even run of escape characters"""
+        t = eng.to_str(p, args[0]); e = eng.to_str(p, args[1])
+        eng.oblige(p, '_ends_with_closing_quote.requires.one_character_escape', Length(e) == 1, 'pre')
+        n = Length(t)
+        return [(p, SBool(And(n > 0, SubString(t, n - 1, 1) == StringVal('"'), esc_run(t, e, n - 2) % 2 == 0)))]
+
+    def setup(self, eng, p):
+        self.eng = eng
+        f = eng.world.closure_of('rxsci.container.csv', 'merge_escape_parts')
+        self.fn_node = f.node
+        self.lc.extra.pop('cids', None)
+        merged, agg = self.roles()
+        self.lc.list_kinds = {merged: 'str', agg: 'str'}
+        self.parts = eng.new_obj(p, 'slist', ('slist', self.PS, 'str'))
+        return f, [self.parts, SStr(self.SEP), SStr(self.ES)], {}
+
+    def requires(self):
+        return [Length(self.ES) == 1, Length(self.SEP) == 1]
+
+    def on_exception(self, q): return BoolVal(False)
+
+    def ensures(self, q, ret):
+        PS, SEP = self.PS, self.SEP
+        if not isinstance(ret, Ref):
+            return [('returns_a_list', BoolVal(False))]
+        R = self.seq_of(q, ret)
+        _m, a_cid = self.lc.extra['cids']
+        av = q.cells.get(a_cid)
+        out = [('argument_not_modified', q.heap[self.parts.oid][1] == PS)]
+        facts = [q.heap[self.parts.oid][1] == PS]
+        if av is None:
+            g1 = flat(SEP, R) == flat(SEP, PS)
+            g2 = Implies(Length(PS) >= 1, And(Length(R) >= 1, joinsep(SEP, R) == joinsep(SEP, PS)))
+            out.append(('text_preserved_when_every_quote_is_closed', g1, {'defs': flat_instances(SEP, [g1] + list(q.pc), PS)}))
+            out.append(('rejoined_parts_are_the_line', g2, {'defs': flat_instances(SEP, [g1, g2] + list(q.pc), PS), 'hints': [g1]}))
+        else:
+            g = z3.PrefixOf(flat(SEP, R), flat(SEP, PS))
+            out.append(('unclosed_quote_only_truncates', g, {'defs': flat_instances(SEP, [g] + list(q.pc), PS)}))
+        return out
+
+    # ---- native side
+    @staticmethod
+    def spec_py(parts, sep, esc):
+        """reference written from the dumper's format: a part that starts with a quote and is not a complete quoted field opens a group;
+        the group runs up to the first part that ends with a closing quote -> (merged parts, every quote closed?)"""
+        closing = ClosingQuote.spec_py
+        out = []; i = 0; n = len(parts)
+        while i < n:
+            t = parts[i]
+            if t == '"' or (t.startswith('"') and not closing(t, esc)):
+                k = i + 1
+                while k < n and not closing(parts[k], esc): k += 1
+                if k == n: return out, False
+                out.append(sep.join(parts[i:k + 1])); i = k + 1
+            else:
+                out.append(t); i += 1
+        return out, True
+
+    search_on_unknown = True
+
+    def replay(self, model):
+        """native side of the contract: the real function on the model's input (if any) and on every list of up to 5 parts over a small
+        alphabet of quote / escape / empty / plain pieces, checked against the CLAUSES of the contract (not against a reference output):
+        the argument is unchanged; the re-joined result is the re-joined argument -- or, on a line whose last quote is never closed (by
+        the reference reading of the dumper's format), a part-wise prefix of it"""
+        import importlib, itertools
+        f = importlib.import_module('rxsci.container.csv').merge_escape_parts
+        def flat_py(ps, sep): return ''.join(sep + x for x in ps)
+        def show(parts, sep, esc):
+            _exp, closed = self.spec_py(list(parts), sep, esc)
+            before = list(parts); arg = list(parts)
+            try: got = f(arg, sep, esc)
+            except Exception as ex:
+                return {'status': 'reproduced', 'call': f'merge_escape_parts({before!r}, {sep!r}, {esc!r})', 'got': f'{type(ex).__name__}: {ex}', 'expected': 'no exception'}
+            why = None
+            if arg != before: why = 'the argument list was modified'
+            elif not isinstance(got, list) or not all(isinstance(x, str) for x in got): why = 'the result is not a list of strings'
+            elif flat_py(got, sep) != flat_py(before, sep):
+                if closed: why = 'every quote is closed, but the re-joined result is not the text of the parts'
+                elif not flat_py(before, sep).startswith(flat_py(got, sep)): why = 'the result is not a prefix of the text of the parts'
+            if why:
+                return {'status': 'reproduced', 'call': f'merge_escape_parts({before!r}, {sep!r}, {esc!r})', 'got': got, 'why': why,
+                        'argument_after_call': arg, 'text_of_parts': sep.join(before), 'text_of_result': sep.join(got) if isinstance(got, list) else None}
+            return None
+        cands = []
+        if model is not None:
+            try:
+                n = model.eval(Length(self.PS), model_completion=True).as_long()
+                parts = [model.eval(self.PS[i], model_completion=True).as_string() for i in range(min(n, 12))]
+                sep = model.eval(self.SEP, model_completion=True).as_string(); esc = model.eval(self.ES, model_completion=True).as_string()
+                if len(sep) == 1 and len(esc) == 1: cands.append((parts, sep, esc))
+            except Exception:
+                pass
+        alpha = ['"', 'a', '', '\\"', '"a', 'a"', '\\', '"a"', '""']
+        for n in range(0, 6):
+            for tup in itertools.product(alpha, repeat=n):
+                cands.append((list(tup), ',', '\\'))
+        for parts, sep, esc in cands:
+            r = show(parts, sep, esc)
+            if r: return r
+        return {'status': 'not-reproduced', 'tried': len(cands)}
+
+    def e2e(self):
+        from ..bounded import io as bio
+        from ..bounded.mux import first_new_failure
+        return first_new_failure(bio.check_c18({}))
+
+
 def csv_cases():
     out = []
     C = 'rxsci.container.csv'
@@ -511,6 +753,7 @@ def csv_cases():
     for rep, want in (('int', 'parse_int'), ('tint', 'parse_int'), ('float', 'parse_decimal'), ('tfloat', 'parse_decimal'), ('bool', 'lambda'), ('str', 'lambda'), ('tstr', 'lambda')):
         out.append(TypeParser(rep, want))
     out.append(ClosingQuote())
+    out.append(MergeEscapeParts())
     out += codec_cases(only_csv=True)
     fname = SVal(Const('filename', Val)); opn = UserFn('open_obj'); pl = Host('pipe', fns=[])
     def load_term(self, q, chain):
